@@ -361,6 +361,16 @@ JudgeHook(e) ==
       [] OTHER -> <<Verdict("unknown_hook", "", e.hook)>>
 
 (* ======================================================================= *)
+(* build information: the capacity of the build's Signature type must admit the longest signature *)
+(* its limits allow (per-level maximum height, per-level minimum w, n = 32), up to the 65535 bytes *)
+(* any signature container of the library can hold                                                *)
+JudgeInfo(e) ==
+    LET L == EnvMaxLevels
+        big == [i \in 1..L |-> [otsT |-> TypeOfW(EnvMinWAt(i)), lmsT |-> TypeOfHeight(EnvMaxHeightAt(i))]]
+        need == LET x == HssSigLen(32, big) IN IF x > 65535 THEN 65535 ELSE x
+    IN  IF e.max_sig_len < need THEN <<[kind |-> "signature_capacity_too_small", exp |-> need, got |-> e.max_sig_len]>> ELSE <<>>
+
+(* ======================================================================= *)
 (* Deliberately wrong constants for the negative controls (TraceBytes_neg*.cfg): a correct *)
 (* trace validated against a specification mutated this way MUST be rejected.              *)
 Neg_D_LEAF == <<130, 131>>
@@ -376,7 +386,8 @@ Judge(e, c) ==
       [] e.ev = "verify"   -> [v |-> JudgeVerify(e), c |-> c]
       [] e.ev = "lifetime" -> [v |-> JudgeLifetime(e), c |-> c]
       [] e.ev = "hook"     -> [v |-> JudgeHook(e), c |-> c]
-      [] e.ev \in {"info", "reset", "load", "persist"} -> [v |-> <<>>, c |-> c]
+      [] e.ev = "info"     -> [v |-> JudgeInfo(e), c |-> c]
+      [] e.ev \in {"reset", "load", "persist"} -> [v |-> <<>>, c |-> c]
       [] e.ev = "hang"     -> [v |-> <<Verdict("hang", "termination", "hang")>>, c |-> c]
       [] OTHER             -> [v |-> <<Verdict("unknown_event", "", e.ev)>>, c |-> c]
 
